@@ -41,6 +41,10 @@ def scenarios(quick):
     S.append(("http", "swarm", "http.swarm.request:panic:2", "later (request task)", 2, "http_requests", None))
     S.append(("http", "socket", "builtin-proxy-panic", "later (connection task, built-in panic)", 1, "http_proxy", None))
     S.append(("http", "socket", "bind", "start-up (address in use)", 1, None, None))
+    # the metrics worker: its listener cannot be bound
+    S.append(("udp", "prometheus", "prometheus-bind", "start-up (metrics address in use)", 1, None, "mio"))
+    S.append(("http", "prometheus", "prometheus-bind", "start-up (metrics address in use)", 1, None, None))
+    S.append(("ws", "prometheus", "prometheus-bind", "start-up (metrics address in use)", 1, None, None))
     if not quick:
         S.append(("udp", "socket[mio]", "udp.socket.loop:panic:3000", "later", 1, None, "mio"))
         S.append(("udp", "cleaning", "udp.cleaning.loop:panic:3", "later", 1, None, "mio"))
@@ -62,7 +66,17 @@ def run_scenario(ctx, idx, sc, out):
                           header="X-Real")
     else:
         cfg = ws_config(port, nworkers, nworkers)
-    faults = None if fault in ("bind", "builtin-proxy-panic") else fault
+    if fault == "prometheus-bind":
+        mport = free_port(socket.SOCK_STREAM)
+        if tracker == "udp":
+            cfg["statistics"]["run_prometheus_endpoint"] = True
+            cfg["statistics"]["prometheus_endpoint_address"] = "127.0.0.1:%d" % mport
+        else:
+            cfg["metrics"] = {"run_prometheus_endpoint": True, "prometheus_endpoint_address": "127.0.0.1:%d" % mport}
+        blocker = socket.socket(socket.AF_INET, socket.SOCK_STREAM)
+        blocker.bind(("127.0.0.1", mport))
+        blocker.listen(1)
+    faults = None if fault in ("bind", "builtin-proxy-panic", "prometheus-bind") else fault
     if fault == "bind":
         # occupy the address without SO_REUSEPORT so that the worker cannot set up its socket
         if tracker == "udp":
@@ -109,7 +123,7 @@ def run_scenario(ctx, idx, sc, out):
         so, se = t.stdout(), t.stderr()
         mret = re.search(r"RUN-RETURNED (\w+) t_ms=(\d+)", so)
         mfault = re.search(r"VERIF-FAULT (\S+) (\S+) t_ms=(\d+)", se)
-        if fault == "bind":
+        if fault in ("bind", "prometheus-bind"):
             fault_ms = 0
         elif fault == "builtin-proxy-panic":
             fault_ms = trigger_ms if trigger_ms is not None else 0
@@ -196,6 +210,6 @@ def run(ctx):
                 "and TLC validates result = error and delay <= 10 s",
     })
     ctx.add_sample(out[min(out)])
-    ctx.assumptions += ["the prometheus worker is not built into the harness (feature off): not exercised",
+    ctx.assumptions += ["the prometheus worker is exercised through an unbindable metrics address only",
                         "fault points are the feature-gated hooks in the worker loops; bind failures and the HTTP "
                         "reverse-proxy panic need no hook"]
